@@ -63,6 +63,13 @@ package tls
 //@ site Uint32#1 as be32
 //@ site Uint64#1 as be64
 //@ site reflect.MakeSlice#1 as mk
+//@ site reflect.New#1 as nw
+//@ site reflect.Zero#1 as zr
+//@ site parseField#1 as rec
+//@ at rec assert [struct-field-decoded-at-the-running-offset-with-its-own-tag-info] rec.data == data && rec.initOffset == offset && rec.info == fieldInfo
+//@ at rec assert [a-selected-variant-is-decoded-into-a-newly-made-object] fieldInfo.selector != "" ==> nw.called
+//@ at nw assert [only-the-chosen-variant-is-made-and-only-once] fieldInfo.selector != "" && choice == fieldInfo.val && !seen
+//@ at zr assert [only-unchosen-variants-are-cleared] fieldInfo.selector != "" && choice != fieldInfo.val
 //@ requires 0 <= initOffset && initOffset <= len(data)
 //@ requires info != nil ==> info.count <= 4294967295
 //@ modifies nothing
